@@ -52,7 +52,8 @@ Roles   == {"primary", "replica", "noprimary"}
 Methods == {"GET", "POST", "DELETE", "PUT"}
 PCs     == {"missing", "empty", "unknown", "malformed", "valid"}
 Ids     == {"missing", "empty", "malformed", "zero", "a", "b"}
-Hdrs    == {"absent", "own", "foreign"}
+\* "ownalt": the node's own ID in another spelling of the same hexadecimal number (lower case, extra leading zero)
+Hdrs    == {"absent", "own", "ownalt", "foreign"}
 Protos  == {"h1", "h2c"}
 Bodies  == {"empty", "truncated", "garbage", "valid", "oversized"}
 \* /tx additionally gets a full snapshot file (first transaction ID 1) with an intact header and one
@@ -110,7 +111,7 @@ Why(r) ==
   IF r.ep = "other" THEN "path-unknown"
   ELSE IF r.m \notin Allowed(r.ep) THEN "method-not-allowed"
   ELSE IF r.ep = "stream" /\ r.proto = "h1" THEN "http2-required"
-  ELSE IF r.ep \in {"stream", "tx", "halt"} /\ r.hdr = "own" THEN "self-id"
+  ELSE IF r.ep \in {"stream", "tx", "halt"} /\ r.hdr \in {"own", "ownalt"} THEN "self-id"
   ELSE IF r.ep = "halt" /\ r.id \in {"missing", "empty", "malformed"} THEN "id-" \o r.id
   ELSE IF NameParam(r.ep) /\ r.pc \in {"missing", "empty"} THEN "name-" \o r.pc
   ELSE IF NameParam(r.ep) /\ r.pc = "malformed" THEN "name-traversal"
